@@ -231,23 +231,26 @@ class VIter(SV):
 
 class VSymIter(SV):
     """Iterator over a sequence of unknown length: next_elem(run) yields an arbitrary further element."""
-    __slots__ = ("next_elem", "label")
+    __slots__ = ("next_elem", "label", "source", "length")
     cls = type(iter(()))
 
-    def __init__(self, next_elem, label="symbolic-iterator"):
+    def __init__(self, next_elem, label="symbolic-iterator", source=None):
         self.next_elem = next_elem
         self.label = label
+        self.source = source
+        self.length = None
 
 
 class VSymList(SV):
     """list-family value of unknown length whose elements are arbitrary members of an element domain."""
-    __slots__ = ("cls", "next_elem", "label", "length")
+    __slots__ = ("cls", "next_elem", "label", "length", "source")
 
     def __init__(self, cls, next_elem, label="symbolic-list"):
         self.cls = cls
         self.next_elem = next_elem
         self.label = label
         self.length = None
+        self.source = None
 
 
 class VZSeq(SV):
